@@ -53,11 +53,20 @@ Clause(ev) == CASE ev.op = "image" -> ImageClause(ev)
                 [] ev.op = "file"  -> FileClause(ev)
                 [] OTHER           -> 8          \* mila failed to serialize / parse its own archive
 
+\* the canonical-image clauses (C02) are decided on their own as well: an image that already fails a structural clause
+\* (C01) is still examined for "is exactly Canon(content)" and "parse + re-serialize reproduces it"
+CanonClause(ev) ==
+  CASE ev.op = "image" -> LET c == ev.content IN
+                           IF ~ValidContent(c) \/ ~Exact(c) THEN 0
+                           ELSE IF ev.bytes # Canon(c) THEN 6 ELSE IF ~ev.stable THEN 7 ELSE 0
+    [] ev.op = "big"   -> IF ~ev.stable THEN 7 ELSE 0
+    [] OTHER           -> 0
+
 Init == i = 1 /\ bad = <<>> /\ ncanon = 0
 Next ==
   /\ i <= Len(Rec)
-  /\ LET k == Clause(Rec[i]) IN
-       /\ bad' = IF k = 0 THEN bad ELSE Append(bad, <<i, k>>)
+  /\ LET k == Clause(Rec[i])  k2 == CanonClause(Rec[i]) IN
+       /\ bad' = (IF k = 0 THEN bad ELSE Append(bad, <<i, k>>)) \o (IF k2 = 0 \/ k2 = k THEN <<>> ELSE << <<i, k2>> >>)
        /\ ncanon' = IF IsCanonicalFile(Rec[i]) THEN ncanon + 1 ELSE ncanon
        /\ i' = i + 1
 Spec == Init /\ [][Next]_vars
